@@ -524,3 +524,13 @@ C(f"{F}:Parser.get_expr_name", params={"self": "obj:Parser", "node": "obj:PosNod
 C(f"{F}:Parser.raise_syntax_error_invalid_target", params={"self": "obj:Parser", "target": "int", "node": TNODE},
   requires=TKW + TGT + ["tree_wf(node)"],
   ensures=["is_none(result)"], raises=["SyntaxError"], raises_ensures=[WF], modifies=ERRMOD, properties=["C02", "C11", "C03"])
+
+# the constructor: an empty memo cache, first pass (invalid rules off), no pending path prefix, and never a target version above the running one
+C(f"{F}:Parser.__init__", params={"self": "obj:Parser#strings", "tokenizer": "obj:Tokenizer", "verbose": "bool", "filename": "str", "py_version": "opt[version]"},
+  ensures=["self._tokenizer is tokenizer", "self._level == 0 and self.in_recursive_rule == 0 and not self.call_invalid_rules",
+           "is_none(self._path_token) and is_none(self._path_owner)", "self.filename == filename and self._verbose == verbose",
+           "self.py_version <= sys.version_info",
+           "implies(not is_none(py_version) and py_version <= sys.version_info, self.py_version == py_version)"],
+  modifies=["self._tokenizer", "self._verbose", "self._level", "self._cache", "self.in_recursive_rule", "self._path_token", "self._path_owner", "self._mark", "self._reset",
+            "self.call_invalid_rules", "self.filename", "self.py_version"],
+  raises=[], properties=["C15", "C13"])
